@@ -194,4 +194,45 @@ func (e *c43Env) corpus() {
 	e.opCreate("alice", "d1", "t")
 	e.opDeleteByDSN("d1")
 	e.qAuth("alice", false, "alice", "d1", "t", rd)
+
+	// 9. a DSN created unrestricted, used (so every reader has seen the unrestricted record), then restricted
+	//    implicitly by its first DSN-level grant: from then on DSN-level and table grants are enforced
+	e.reset()
+	e.opWriteDSN("d1", false)
+	e.qRow("bob", false, 0, 'r', "d1", "t")
+	e.qAuthDSN("carol", "d1", 1)
+	e.qAuth("carol", false, "carol", "d1", "t", rd)
+	e.opGrantDSN("bob", "d1", 3, true)
+	e.qAuthDSN("bob", "d1", 1)
+	e.qAuthDSN("carol", "d1", 1)
+	e.qAuth("bob", false, "bob", "d1", "t", rd)
+	e.qRow("bob", false, 0, 'r', "d1", "t")
+	e.qRow("carol", false, 0, 'r', "d1", "t")
+	e.qRow("carol", false, 3, 'r', "d1", "t")
+	e.opGrantDSN("carol", "d1", 3, true)
+	e.opGrant("bob", "d1", "t", rd)
+	e.qRow("bob", false, 0, 'r', "d1", "t")
+	e.qRow("bob", false, 0, 'i', "d1", "t")
+	e.qRow("carol", false, 0, 'r', "d1", "t")
+	e.qRow("carol", false, 0, 'd', "d1", "t")
+	e.qRow("dave", false, 8, 'u', "d1", "t")
+	e.qRow("dave", true, 0, 'u', "d1", "t")
+
+	// 10. restricted -> unrestricted by an explicit write, and back by a grant; a deleted and re-created DSN
+	e.reset()
+	e.opWriteDSN("d1", true)
+	e.qRow("bob", false, 0, 'r', "d1", "t")
+	e.opWriteDSN("d1", false)
+	e.qRow("bob", false, 0, 'r', "d1", "t")
+	e.opGrantDSN("bob", "d1", 1, false)
+	e.qRow("bob", false, 0, 'r', "d1", "t")
+	e.qRow("bob", false, 1, 'r', "d1", "t")
+	e.opDeleteDSN("d1")
+	e.qRow("bob", false, 1, 'r', "d1", "t")
+	e.opWriteDSN("d1", false)
+	e.qRow("bob", false, 0, 'r', "d1", "t")
+	e.qAuthDSN("bob", "d1", 1)
+	e.opGrantDSN("alice", "d1", 3, true)
+	e.qAuthDSN("bob", "d1", 1)
+	e.qRow("bob", false, 0, 'r', "d1", "t")
 }
